@@ -52,7 +52,7 @@ FinOf(p) == LET I == {i \in 1..Len(records) : records[i].m = "finished" /\ recor
 Pred(p) == [fin |-> FinOf(p), expected |-> ExpectedFin(ops[p]), allowed |-> AllowedFin(ops[p]),
             status |-> ClientStatus(client[p]), calls |-> client[p]]
 
-Vector == [n |-> Cardinality(Procs), retain |-> Retain, gates |-> GateSet,
+Vector == [n |-> Cardinality(Procs), retain |-> Retain, gates |-> GateSet, mwon |-> MwEnabled,
            ops |-> [p \in Procs |-> ops[p]],
            sched |-> hist,
            pred |-> [p \in Procs |-> Pred(p)]]
